@@ -16,6 +16,8 @@ def run(c):
     scen = []
     for i, g in enumerate(cfgs):
         s = dict(g, sc=i, via="SignEFIVariable" if i % 4 else "WriteSignedUpdate", burst=4 if i % 5 == 0 else 1)
+        if s["via"] == "WriteSignedUpdate" and s["payload"] in ("d3", "dc", "d1") and (i // 4) % 2 == 0:
+            s.update(existing={"d3": "d1", "dc": "dc", "d1": "d1"}[s["payload"]])   # the variable exists and already holds entries of the update
         if i % 7 == 3 and s["via"] == "SignEFIVariable":
             s.update(mutate_after=True)   # the payload object is changed after signing, before the update is serialised
         if i % 6 == 2:
@@ -32,6 +34,10 @@ def run(c):
         if i % 23 == 1:
             s.update(slow=True, burst=1)    # a signer that takes longer than a second (hardware token): the clock ticks during the call
         scen.append(s)
+    # appends (APPEND_WRITE) written through WriteSignedUpdate to a variable that exists and already holds some / all of the entries
+    for nm, gd in (("dbx", "global"), ("my-var", "lead0")):
+        for pl, ex in (("d3", "d1"), ("dc", "dc"), ("d3", "d3")):
+            scen.append({"name": nm, "guid": gd, "attrs": 103, "payload": pl, "tz": "UTC", "key": "k1", "sc": len(scen), "via": "WriteSignedUpdate", "burst": 1, "existing": ex})
     # updates whose RSA signature value begins with a zero octet (the harness renames the variable until one comes out)
     lz = c.tlc("MC_SignVar", "sig.cfg", files={"sig.cfg": cfg.replace("INIT Init", "INIT SigInit").replace("INVARIANT AllBind\n", "")}, name="signature-value-shapes").json_lines()
     for g in lz:
